@@ -213,6 +213,19 @@ SUBPATHS = [
     "M10,10 H20 V20 H10 Z M10,10 V20 H20 V10 Z",
     "M5,25 Q15,5 25,25 M12,12 Z",
 ]
+# every sequence of up to 3 (thorough: 4) subpaths over this alphabet - repetitions of the SAME subpath included
+# (two identical contours cancel under evenodd and add up under nonzero; dropping or merging one changes the picture)
+SUB_ATOMS = ["M10,10 H20 V20 H10 Z", "M13,13 H17 V17 H13 Z", "M13,13 V17 H17 V13 Z", "M2,2 L4,4", "M25,25", "M6,6 L6,6"]
+
+
+def sub_sequences(tier):
+    for n in (1, 2, 3) if tier == "quick" else (1, 2, 3, 4):
+        for seq in itertools.product(range(len(SUB_ATOMS)), repeat=n):
+            if n == 4 and not (len(set(seq)) < 4):
+                continue  # length 4: only sequences with a repeated subpath
+            yield " ".join(SUB_ATOMS[i] for i in seq)
+
+
 SUBATTRS = [
     {"fill": "red"},
     {"fill": "red", "fill-rule": "evenodd"},
@@ -253,6 +266,7 @@ def cases(tier, seed):
     for i in range(0, len(docs), 20):
         yield {"fam": "docs", "docs": docs[i : i + 20], "seed": seed}
     paths = [(d, a) for d in SUBPATHS for a in SUBATTRS]
+    paths += [(d, a) for d in sub_sequences(tier) for a in (SUBATTRS if tier == "thorough" else SUBATTRS[:3])]
     for i in range(0, len(paths), 12):
         yield {"fam": "subpaths", "paths": paths[i : i + 12], "seed": seed}
 
@@ -263,7 +277,7 @@ def run(run):
         "contours in opposite / same direction, bow-tie, nested same-direction squares, slivers of area 1e-6 / 1e-9 / 2e-3, open path enclosing area, empty-then-full subpaths, drawing after Z) x "
         "fill {absent, none, colour} x stroke {absent, none, colour} x stroke-width {absent, 0, 1} x opacity, fill-opacity, stroke-opacity in {absent, 0, .5} x display {absent, none, inline} x "
         "carrier {attribute, style, style contradicting attributes} x fill-rule 2 for might_paint(); documents of 2 such shapes in a translucent group + neighbours for remove_unpainted_shapes() "
-        "(rendered by R3 before/after); 12 multi-subpath paths x 6 attribute sets for SVGPath.remove_empty_subpaths() (rendered before/after). Oracle: reference 'paints' (visible fill with area > 1e-4 "
+        "(rendered by R3 before/after); 12 multi-subpath paths x 6 attribute sets + every sequence of <= 3 (thorough 4) subpaths over 6 atoms (incl. repeated identical contours) x 3 (6) attribute sets for SVGPath.remove_empty_subpaths() (rendered before/after). Oracle: reference 'paints' (visible fill with area > 1e-4 "
         "under the rule, or visible stroke on a path with a segment) must imply might_paint(); 0 < area <= 1e-4 is undecided. Non-trivial = shape that paints per the reference or that the "
         "implementation prunes / documents where something was removed."
     )
